@@ -251,7 +251,24 @@ func RunPQ(maxSize int, gen func(step, length int) (pqOp, bool)) ([]pqOp, []obsv
 	return ops, obs
 }
 
-var prios = []int32{40, 50, 50, 60, 75, 100, 100, 125}
+var usualPrios = []int32{40, 50, 50, 60, 75, 100, 100, 125}
+
+// the whole range a PriorityClass value may take (int32): user classes go to
+// 1e9, system classes to 2e9+1000, and negative values are valid
+var widePrios = []int32{-2147483648, -2000000000, -1000000000, -1, 0, 50, 1000000000, 2000000000, 2000001000, 2147483647}
+
+var prios = usualPrios
+
+// PickPrios chooses the priority pool of the next program: every 4th program
+// draws from the whole int32 range.
+func PickPrios(r *u.Rng) []int32 {
+	if r.Chance(1, 4) {
+		prios = widePrios
+	} else {
+		prios = usualPrios
+	}
+	return prios
+}
 
 func genJob(r *u.Rng, uid, queue int, elasticStates bool) jobSpec {
 	j := jobSpec{UID: uid, Queue: queue, Prio: u.Pick(r, prios), CTime: int64(r.Intn(6)), Shape: r.Intn(3)}
@@ -570,6 +587,9 @@ func Run(dir string, seed uint64, n int, tier string) error {
 		if i%4 == 3 {
 			depth = u.Pick(r, finiteDepths)
 		}
+		if len(PickPrios(r)) == len(widePrios) {
+			out.Count("pq:wide-priorities")
+		}
 		ops, obs := pqProgram(r, depth)
 		emitPQ(out, fmt.Sprintf("gen#%d", i), depth, ops, obs)
 	}
@@ -578,6 +598,9 @@ func Run(dir string, seed uint64, n int, tier string) error {
 		depth := scheduler_util.QueueCapacityInfinite
 		if i%4 == 3 {
 			depth = u.Pick(r, finiteDepths)
+		}
+		if len(PickPrios(r)) == len(widePrios) {
+			out.Count("jo:wide-priorities")
 		}
 		queues := genHierarchy(r, r.Range(2, 6))
 		origin := fmt.Sprintf("gen#%d", i)
@@ -627,6 +650,9 @@ func Run(dir string, seed uint64, n int, tier string) error {
 		if i%5 == 4 {
 			depth = r.Range(1, 4)
 		}
+		if len(PickPrios(r)) == len(widePrios) {
+			out.Count("al:wide-priorities")
+		}
 		c := genCluster(r)
 		res, err := al.run(c, depth)
 		if err != nil {
@@ -637,7 +663,7 @@ func Run(dir string, seed uint64, n int, tier string) error {
 	if al.reporter.failed > 0 {
 		out.Stats["gomock_reports"] = al.reporter.failed
 	}
-	out.Stats["rule"] = "one splitmix64 stream; after a fixed corpus (ties, elastic states, depth 0/1/2 witnesses): 40% PriorityQueue programs (push/pop/Fix(i)/re-prioritise-top+Fix(0), 4-36 ops then drained), 45% JobsOrderByQueues programs (2-6 leaf queues on 1-3 levels, 3-24 initial pushes, then pops / pushes / re-pushes with progress, then drained), 15% real allocate runs (1-4 nodes, 2-6 leaf queues in 1-2 departments, 4-28 pending jobs from 2-3 templates, deserved quotas and limits); every 4th queue program and every 5th allocate run uses a finite depth (label prefix finite-depth; checked like all others); non-trivial = PQ: >=3 pushes and >=2 pops; JO: jobs in >=2 queues and >=4 pushes; allocate: >=1 comparable pair (same leaf queue and shape) with at least one job placed and one not"
+	out.Stats["rule"] = "one splitmix64 stream; after a fixed corpus (ties, elastic states, depth 0/1/2 witnesses): 40% PriorityQueue programs (push/pop/Fix(i)/re-prioritise-top+Fix(0), 4-36 ops then drained), 45% JobsOrderByQueues programs (2-6 leaf queues on 1-3 levels, 3-24 initial pushes, then pops / pushes / re-pushes with progress, then drained), 15% real allocate runs (1-4 nodes, 2-6 leaf queues in 1-2 departments, 4-28 pending jobs from 2-3 templates, deserved quotas and limits); every program draws its priorities from {40,50,60,75,100,125} or, one in four, from the whole int32 range of a PriorityClass value (-2^31 .. 2^31-1, system classes included); every 4th queue program and every 5th allocate run uses a finite depth (label prefix finite-depth; checked like all others); non-trivial = PQ: >=3 pushes and >=2 pops; JO: jobs in >=2 queues and >=4 pushes; allocate: >=1 comparable pair (same leaf queue and shape) with at least one job placed and one not"
 	return out.Flush()
 }
 
